@@ -3,7 +3,7 @@ from ..cfg import enum_paths, paths_to
 from ..facts import AnalysisBroken, walk, key, cval
 from ..lin import Lin, linearize, cmp_constraints, prove_le, feasible, PROVEN, REFUTED, CEX
 from ..util import (stores, lv_field, lv_var, is_call, calls_in, refs, mentions,
-                    strip_casts, negate_truth, flatten_and, path_consistent)
+                    strip_casts, negate_truth, flatten_and, path_consistent, nullness)
 from .w import fail_edge_check, result_test, ret_nonzero, _eval, _facts
 
 # ----------------------------------------------------------------------------------------
@@ -132,7 +132,8 @@ def rule_S3(ctx):
             bt = _bang_test(cc)
             if bt and (tt == bt[1]):
                 flags.add(bt[0])
-            if cc["k"] == "member" and cc["field"] == "lb" and tt:
+            nn = nullness(cc, tt)
+            if nn is not None and nn[0]["k"] == "member" and nn[0]["field"] == "lb" and not nn[1]:
                 alloc = True
             if is_call(cc, "bufs_modified") and key(cc["args"][0]) == ivar and not tt:
                 checked = True
@@ -149,7 +150,8 @@ def rule_S3(ctx):
     for c2 in eq.calls("bufs_modified"):
         for cc, tt in _facts(eq, c2):
             bt = _bang_test(cc)
-            okc = (bt and bt[0] in ("a", "!")) or (cc["k"] == "member" and cc["field"] == "lb") \
+            nn = nullness(cc, tt)
+            okc = (bt and bt[0] in ("a", "!")) or (nn is not None and nn[0]["k"] == "member" and nn[0]["field"] == "lb") \
                 or (cc["id"] == c["id"]) or key(cc) == key(c)
             if not okc:
                 ctx.violation("ec_quit", "dirty test skipped by an extra condition",
@@ -200,8 +202,14 @@ def rule_S3(ctx):
                 if end != pr[0]:
                     continue
                 fs = [negate_truth(bm.nodes[x[1]], x[2]) for x in items if x[0] == "br"]
-                if not any((is_call(cc, "lbuf_modified") and not tt) or
-                           (cc["k"] == "member" and cc["field"] == "lb" and not tt) for cc, tt in fs):
+                def _nolb(cc, tt):
+                    nn = nullness(cc, tt)
+                    return nn is not None and nn[0]["k"] == "member" and nn[0]["field"] == "lb" and nn[1]
+
+                def _clean(cc, tt):
+                    nn = nullness(cc, tt)
+                    return nn is not None and is_call(nn[0], "lbuf_modified") and nn[1]
+                if not any(_clean(cc, tt) or _nolb(cc, tt) for cc, tt in fs):
                     okr = False
             if okr:
                 ctx.ok("bufs_modified", "clean verdict only when lbuf_modified is false", loc=bm.loc(r))
